@@ -72,6 +72,13 @@ func (w *bufferedResponseWriter) Header() http.Header {
 }
 
 func (w *bufferedResponseWriter) WriteHeader(statusCode int) {
+	if statusCode >= 100 && statusCode < 200 && statusCode != http.StatusSwitchingProtocols {
+		// Informational responses (103 Early Hints, 100 Continue) precede the
+		// actual response: pass them on, and keep waiting for the final status.
+		w.ResponseWriter.WriteHeader(statusCode)
+		return
+	}
+
 	if !w.headerWritten {
 		w.statusCode = statusCode
 		w.headerWritten = true
